@@ -67,6 +67,12 @@ func propC18(e *Env) {
 			mustWrite(filepath.Join(root, f), "old\n", os.O_CREATE|os.O_WRONLY)
 		}
 	}
+	if e.Choose("gen", 4) == 0 {
+		// matches the patterns but cannot be tailed (device node behind a symlink): must not stop the others
+		if os.Symlink("/dev/null", filepath.Join(root, "a", "aaa.log")) == nil {
+			e.Probe("untailable_glob_match")
+		}
+	}
 	all := c18Patterns(root)
 	np := 1 + e.Choose("gen", 3)
 	var pats, patDesc []string
